@@ -11,18 +11,18 @@ def is_corpus(ln):
     return '"ev":"corpus"' in ln
 
 
-def run_family(ctx, pid, cfg, runs, why_prefix, nontrivial, timeout=1500, classify=None):
+def run_family(ctx, pid, cfg, runs, why_prefix, nontrivial, timeout=1500, classify=None, tag=""):
     """runs: list of (test name, env). Returns (events, searches, nontrivial count, rejected)."""
     total = 0
     searches = 0
     nt = 0
     for test, env in runs:
-        rc, out, trace = ctx.driver(PKG, "^%s$" % test, FILES, env=env, out="trace_%s.ndjson" % test, timeout=timeout)
+        rc, out, trace = ctx.driver(PKG, "^%s$" % test, FILES, env=env, out="trace_%s%s.ndjson" % (test, tag), timeout=timeout)
         if rc != 0:
             raise vk.Inconclusive("driver %s failed:\n%s" % (test, out[-3000:]))
         events = vk.read_ndjson(trace)
         acc, rej = ctx.validate_trace_sharded("Trace_Search", cfg, trace, header_lines=1, shards=8,
-                                              name="tlcs_" + test, group_start=is_corpus, timeout=timeout)
+                                              name="tlcs_" + test + tag, group_start=is_corpus, timeout=timeout)
         total += len(events)
         corpus = None
         bad_lines = set()
